@@ -83,6 +83,8 @@ def make_spec(seed, rng, k=None, mode=None, N=None, v=None):
             plan.append({'site': 'layer.tearDown', 'ident': rng.choice(cands), 'a': 'raise',
                          'exc': 'NotImplementedError', 'where': 'parent', 'nie': True})
     knobs = {'pipe_capacity': rng.choice([16, 64, 512, 65536])}
+    if rng.random() < 0.3:
+        knobs['defaults_split'] = rng.randint(0, 99)
     return {'property': ID, 'seed': seed, 'world': world, 'plan': _ws.order_plan(plan),
             'opt': opt, 'sched': sched, 'knobs': knobs, 'mode': mode}
 
